@@ -10,6 +10,7 @@ import (
 	"sort"
 	"strconv"
 	"sync"
+	"time"
 
 	apierrors "k8s.io/apimachinery/pkg/api/errors"
 	metav1 "k8s.io/apimachinery/pkg/apis/meta/v1"
@@ -52,6 +53,24 @@ type CondAPI struct {
 	// at sim points (a driver-owned link state: "this node's API is down");
 	// consulted once per call, before it is applied.
 	Fault func(node, verb, name string) int
+	// mod: when each object was last written (fake clock), for oracles that
+	// need "persisted before t".
+	mod map[string]time.Time
+}
+
+// ModTime returns when the named object was last created or updated.
+func (a *CondAPI) ModTime(name string) (time.Time, bool) {
+	a.mu.Lock()
+	defer a.mu.Unlock()
+	t, ok := a.mod[name]
+	return t, ok
+}
+
+func (a *CondAPI) touched(name string) {
+	if a.mod == nil {
+		a.mod = map[string]time.Time{}
+	}
+	a.mod[name] = time.Now()
 }
 
 func NewCondAPI(sc *sim.Sched) *CondAPI {
@@ -86,6 +105,7 @@ func (a *CondAPI) DirectPut(obj *v1alpha1.RateLimitCondition) {
 	st := obj.DeepCopy()
 	st.ResourceVersion = a.nextRV()
 	a.objs[st.Name] = st
+	a.touched(st.Name)
 }
 
 func (a *CondAPI) nextRV() string {
@@ -156,6 +176,7 @@ func (c *CondClient) Create(ctx context.Context, obj *v1alpha1.RateLimitConditio
 	st.ResourceVersion = a.nextRV()
 	st.Generation = 1
 	a.objs[name] = st
+	a.touched(name)
 	ret := st.DeepCopy()
 	a.mu.Unlock()
 	if out := c.point("post", "create", name); out != Proceed {
@@ -193,6 +214,7 @@ func (c *CondClient) update(verb string, obj *v1alpha1.RateLimitCondition, statu
 	}
 	st.ResourceVersion = a.nextRV()
 	a.objs[name] = st
+	a.touched(name)
 	ret := st.DeepCopy()
 	a.mu.Unlock()
 	if out := c.point("post", verb, name); out != Proceed {
